@@ -179,6 +179,7 @@ func processFile(filePath string, ctxt *processors.Context, checkOnly bool) erro
 		return err
 	}
 
+	verifhook.Emit("fmt.file", "name", filename)
 	scanner := bufio.NewScanner(parsedBytes)
 
 	scanner.Buffer(nil, utils.MaxLineLength)
@@ -190,7 +191,7 @@ func processFile(filePath string, ctxt *processors.Context, checkOnly bool) erro
 		line := scanner.Bytes()
 		indentBefore := indent
 		line, indent, err = processLine(line, indent)
-		verifhook.Emit("fmt.line", "before", indentBefore, "after", indent, "failed", err != nil)
+		verifhook.Emit("fmt.line", "before", indentBefore, "after", indent, "failed", err != nil, "line", string(line))
 		if err != nil {
 			logger.Error().Err(err).Msgf("failed to format %s", filename)
 			// don't write a file that lost the offending line
